@@ -335,6 +335,9 @@ class SInt(Sym):
         if isinstance(o, int) and o >= 0 and (o & (o + 1)) == 0:
             # low mask: x & (2^k - 1) == x mod 2^k  (also for negative x, two's complement)
             return SInt(self.t % (o + 1))
+        if isinstance(o, int) and o < 0 and ((~o) & ((~o) + 1)) == 0:
+            # high mask: x & ~(2^k - 1) == x - (x mod 2^k)  (python ints, two's complement semantics)
+            return SInt(self.t - self.t % ((~o) + 1))
         raise Unsupported("& on int with a non-low-mask operand")
 
     __rand__ = __and__
